@@ -624,12 +624,18 @@ def same_observable(x, y, exp_indices):
         return False, f"charge {x.charge!r} != {y.charge!r}"
     if tuple(i.dual for i in x.indices) != tuple(i.dual for i in y.indices):
         return False, "directions differ"
-    if labels_of(x) != labels_of(y):
-        return False, f"labels differ: {labels_of(x)} != {labels_of(y)}"
     try:
         dx, dy = embed_dense(x, exp_indices), embed_dense(y, exp_indices)
     except (KeyError, ValueError) as e:
         return False, f"cannot embed: {e!r}"
+    if labels_of(x) != labels_of(y):
+        # same element of the algebra written with different label words?
+        try:
+            (sx, wx), (sy, wy) = nf_labels(labels_of(x)), nf_labels(labels_of(y))
+            same = wx == wy and np.array_equal(sx * dx, sy * dy)
+        except ValueError:
+            same = False
+        return False, f"labels differ: {labels_of(x)} != {labels_of(y)}" + (" (LABELS_ONLY: the two results are equal as algebra elements)" if same else "")
     if not np.array_equal(dx, dy):
         if np.array_equal(dx, -dy):
             return False, "values differ by a global sign"
